@@ -15,6 +15,15 @@ def run(ck):
                          "INVARIANT ForwardWellFormed\nINVARIANT ForwardGivesTarget\nINVARIANT BackwardGivesShape\nCHECK_DEADLOCK FALSE\n"
                          % (4 if q else 6))
     ck.model("MC_Reshape.tla", cfg, timeout=3000)
+    # Machine.tla, reshape instance: every merge / flatten / unit drop / unit insertion / way back of the arrays of the pool
+    # (sparse ones leave fused axes SMALLER than the product of their pieces), model-checked and replayed
+    from vlib import machine
+    _tids = gen.Tids(100000)
+    mprogs = machine.run_machine(ck, "Z2", "fermionic", "PoolZ2s", "OpsReshapeOnly", rank=3, depth=3, mod=150, tids=_tids)
+    if not q:
+        mprogs += machine.run_machine(ck, "Z2", "fermionic", "PoolZ2s", "OpsReshape", rank=3, depth=3, mod=300, tids=_tids, timeout=3000)
+        mprogs += machine.run_machine(ck, "U1", "abelian", "PoolU1s", "OpsReshape", rank=3, depth=3, mod=100, tids=_tids, timeout=3000)
+    ck.conform(mprogs)
     progs = fuse.reshape_programs(ck.seed, 200 if q else 3000)
     progs += fuse.reshape_twin_programs(ck.seed, 24 if q else 400, tids=gen.Tids(300000))
     # routine level: the whole domain of the axis-matching routine (all shapes with <= 5 axes over {1,2,3,4,6}),
